@@ -13,6 +13,7 @@ mod cmd_conform;
 mod cmd_tc;
 mod cmd_parse;
 mod cmd_fmt;
+mod cmd_formats;
 
 /// Command families.  To add one: create src/cmd_xxx.rs with
 /// `pub fn dispatch(cmd: &str, v: &J) -> Option<Result<J, String>>`, add `mod cmd_xxx;` above
@@ -25,6 +26,7 @@ const FAMILIES: &[fn(&str, &J) -> Option<Result<J, String>>] = &[
     cmd_tc::dispatch,
     cmd_parse::dispatch,
     cmd_fmt::dispatch,
+    cmd_formats::dispatch,
 ];
 
 fn dispatch(cmd: &str, v: &J) -> Result<J, String> {
